@@ -200,7 +200,14 @@ func main() {
 			declList = append(declList, d)
 			objOf[d] = o
 		}
-		sort.Slice(declList, func(i, j int) bool { return declList[i].Pos() < declList[j].Pos() })
+		// by file name, then offset: token.Pos depends on the order in which the files were parsed
+		sort.Slice(declList, func(i, j int) bool {
+			pi, pj := s.fset.Position(declList[i].Pos()), s.fset.Position(declList[j].Pos())
+			if pi.Filename != pj.Filename {
+				return pi.Filename < pj.Filename
+			}
+			return pi.Offset < pj.Offset
+		})
 		lits := s.units
 		s.units = nil
 		for _, d := range declList {
